@@ -40,5 +40,22 @@ def handle (op : String) (a : Json) : Option R :=
       let pad ← getInt a "pad"
       if d.length ≠ prodL sh ∨ sh.length ≠ ns.length then throw "BadArg:shape"
       pure (jInts (topleftPad ⟨sh, d.toArray⟩ ns pad).toList)
+  | "c13.centerBox" => some do
+      let c ← getNatList a "cur"; let n ← getNatList a "new"
+      if c.length ≠ n.length then throw "BadArg:rank"
+      let b := if (← getStr a "kind") == "trunc" then extractBox c n else centeredBox c n
+      pure (jNatss (b.map fun (lo, hi) => [lo, hi]))
+  | "c13.centeredMask" => some do
+      let sh ← getNatList a "shape"; let d ← getIntList a "data"; let n ← getNatList a "new"
+      if d.length ≠ prodL sh ∨ sh.length ≠ n.length then throw "BadArg:shape"
+      pure (jInts (centeredMask ⟨sh, d.toArray⟩ n).toList)
+  | "c13.convMask" => some do
+      let m ← modeOf (← getStr a "mode")
+      let sh ← getNatList a "shape"; let d ← getIntList a "data"
+      let cv ← getNatList a "conv"; let s1 ← getNatList a "s1"; let s2 ← getNatList a "s2"
+      if d.length ≠ prodL sh ∨ sh.length ≠ cv.length ∨ sh.length ≠ s1.length ∨ sh.length ≠ s2.length then throw "BadArg:shape"
+      match convMask m ⟨sh, d.toArray⟩ cv s1 s2 with
+      | some r => pure (Json.mkObj [("shape", jNats r.shape), ("data", jInts r.toList)])
+      | none => throw "NegativeExtent"
   | _ => none
 end Drv.C13
